@@ -294,6 +294,11 @@ def judge(shape, dc, cfg, doc, canon, obs, out, rep, prop):
         out.violation("C02:smile:%s" % klass(shape), "accepted value does not survive a Smile round trip", rep)
     if obs.get("twice_equal") is False:
         out.violation("C02:twice:%s" % klass(shape), "the same document deserialised twice gives unequal values", rep)
+    for how, same in (obs.get("spellings") or {}).items():
+        if not same:
+            out.violation("C02:spelling:%s:%s" % (how, klass(shape)),
+                          "the verdict or value changes when the same document is read %s" % (
+                              "from a reader" if "reader" in how else "with its strings written as \\uXXXX escapes" if "escaped" in how else "from a byte slice"), rep)
     return got
 
 
